@@ -110,7 +110,9 @@ impl BufferParser for Parser {
                 }
                 2 => {
                     self.avatar_state = 3;
-                    let repeat_count = ch as usize;
+                    // the count is a single byte in the Avatar protocol; a wider code point (only possible when the
+                    // stream was decoded as Unicode) must not turn into a million repetitions
+                    let repeat_count = (ch as usize).min(255);
                     for _ in 0..repeat_count {
                         self.ansi_parser.print_char(buf, current_layer, caret, self.avt_repeat_char)?;
                     }
